@@ -1,3 +1,4 @@
 #include "contracts/copy.h"
 struct verif_copy_ghost g_c;
 struct verif_copy_const g_cc;
+struct verif_copy_res g_cq;
